@@ -369,6 +369,11 @@ def main(pid, tier):
         'subscription keys are deliberately not pinned (admissible sets)']
     with Build() as build:
         exhaustive = run(pid, tier, v, build)
+        # code -> spec: traces recorded from the real code (random drivers
+        # over larger universes, the repository's own doctests) validated
+        # by TraceRegistry.tla
+        import trace_registry
+        trace_registry.validate(build, v, pid, tier)
     v.cov['exhaustive'] = exhaustive
     return v.finish()
 
